@@ -109,8 +109,11 @@ func init() {
 			in.X.AssertsProved[id]++
 			in.X.mu.Unlock()
 		}
-		// continue under the assumption that it holds (so one defect is not re-reported downstream)
-		in.Assume(c)
+		// continue under the assumption that it holds (so one defect is not re-reported downstream);
+		// a proved assertion is implied by the path condition and need not be added.
+		if failed {
+			in.Assume(c)
+		}
 		if !c.Const && failed && !in.Feasible() {
 			in.end("infeasible", "assertion %s fails on every input of this path", id)
 		}
